@@ -129,17 +129,20 @@ macro_rules! sign_set {
                 // the documented domain of the raw entry points: buffers of AT LEAST the standard size.
                 // keypair_cap <extra> <seed> <tape>: pk / sk buffers longer by <extra>; answers the leading standard-size parts
                 ("keypair_cap", 3) => {
-                    let extra: usize = a[0].parse().ok()?; let seed = opt_bytes(a[1])?; let tape = tape_arg(a[2])?;
-                    let mut pk = vec![next_fill(); pp::PUBLICKEYBYTES + extra]; let mut sk = vec![next_fill(); pp::SECRETKEYBYTES + extra];
+                    // (a negative <extra>: buffers that are too short - the call is expected to be refused)
+                    let extra: isize = a[0].parse().ok()?; let seed = opt_bytes(a[1])?; let tape = tape_arg(a[2])?;
+                    if extra < -32 || extra > 4096 { return None; }
+                    let mut pk = vec![next_fill(); (pp::PUBLICKEYBYTES as isize + extra) as usize]; let mut sk = vec![next_fill(); (pp::SECRETKEYBYTES as isize + extra) as usize];
                     with_tape(&tape, || sg::keypair(&mut pk, &mut sk, seed.as_deref()));
-                    ok(format!("{} {}", hex(&pk[..pp::PUBLICKEYBYTES]), hex(&sk[..pp::SECRETKEYBYTES])))
+                    ok(format!("{} {}", hex(&pk[..pp::PUBLICKEYBYTES.min(pk.len())]), hex(&sk[..pp::SECRETKEYBYTES.min(sk.len())])))
                 }
                 // signature_cap <extra> <msg> <sk> <rnd> <tape>: sig buffer longer by <extra>; answers its first SIGNBYTES bytes
                 ("signature_cap", 5) => {
-                    let extra: usize = a[0].parse().ok()?; let msg = unhex(a[1])?; let sk = unhex(a[2])?; let rnd = a[3] == "1"; let tape = tape_arg(a[4])?;
-                    let mut sig = vec![next_fill(); pp::SIGNBYTES + extra];
+                    let extra: isize = a[0].parse().ok()?; let msg = unhex(a[1])?; let sk = unhex(a[2])?; let rnd = a[3] == "1"; let tape = tape_arg(a[4])?;
+                    if extra < -32 || extra > 4096 { return None; }
+                    let mut sig = vec![next_fill(); (pp::SIGNBYTES as isize + extra) as usize];
                     with_tape(&tape, || sg::signature(&mut sig, &msg, &sk, rnd));
-                    ok(hex(&sig[..pp::SIGNBYTES]))
+                    ok(hex(&sig[..pp::SIGNBYTES.min(sig.len())]))
                 }
                 _ => None,
             }
